@@ -55,6 +55,9 @@ const (
 
 type helperInfo struct {
 	fn     *types.Func
+	sig    *types.Signature
+	clVar  types.Object    // a local closure (`name := func(…) {…}`): its variable
+	clDef  *ast.AssignStmt // … and the statement that defines it
 	decl   *ast.FuncDecl
 	pkg    *packages.Package
 	kind   helperKind
@@ -102,6 +105,7 @@ func init() {
 type inliner struct {
 	refNames map[string]bool
 	helpers  map[*types.Func]*helperInfo
+	closures map[types.Object]*helperInfo
 	counter  int
 	changed  bool
 }
@@ -125,14 +129,68 @@ func (in *inliner) classify(p *packages.Package, fd *ast.FuncDecl) *helperInfo {
 	if fn == nil || in.refNames[strings.ToLower(fd.Name.Name)] || anchorFuncs[fd.Name.Name] || anchorPrefix(fd.Name.Name) {
 		return nil
 	}
-	sig := fn.Type().(*types.Signature)
+	return in.classifyBody(p, fd, fn, fn.Type().(*types.Signature))
+}
+
+// classifyClosure: a local `name := func(params) results { … }`, written once
+// and only ever called, is a helper like any other (its free variables are
+// the caller's own, which the capture check of instantiate confirms).
+func (in *inliner) classifyClosure(p *packages.Package, encl *ast.FuncDecl, def *ast.AssignStmt) *helperInfo {
+	if def.Tok != token.DEFINE || len(def.Lhs) != 1 || len(def.Rhs) != 1 {
+		return nil
+	}
+	id, ok := def.Lhs[0].(*ast.Ident)
+	lit, ok2 := def.Rhs[0].(*ast.FuncLit)
+	if !ok || !ok2 || id.Name == "_" {
+		return nil
+	}
+	obj := p.TypesInfo.Defs[id]
+	sig, _ := p.TypesInfo.TypeOf(lit).(*types.Signature)
+	if obj == nil || sig == nil {
+		return nil
+	}
+	// never written again, never used as a value
+	okUse := true
+	ast.Inspect(encl.Body, func(n ast.Node) bool {
+		switch x := n.(type) {
+		case *ast.CallExpr:
+			if fid, ok := ast.Unparen(x.Fun).(*ast.Ident); ok && p.TypesInfo.Uses[fid] == obj {
+				for _, a := range x.Args {
+					ast.Inspect(a, func(m ast.Node) bool {
+						if aid, ok := m.(*ast.Ident); ok && p.TypesInfo.Uses[aid] == obj {
+							okUse = false
+						}
+						return true
+					})
+				}
+				return false
+			}
+		case *ast.Ident:
+			if p.TypesInfo.Uses[x] == obj {
+				okUse = false
+			}
+		}
+		return true
+	})
+	if !okUse {
+		return nil
+	}
+	fd := &ast.FuncDecl{Name: id, Type: lit.Type, Body: lit.Body}
+	h := in.classifyBody(p, fd, nil, sig)
+	if h != nil {
+		h.clVar, h.clDef = obj, def
+	}
+	return h
+}
+
+func (in *inliner) classifyBody(p *packages.Package, fd *ast.FuncDecl, fn *types.Func, sig *types.Signature) *helperInfo {
 	if sig.Variadic() || sig.TypeParams() != nil || sig.RecvTypeParams() != nil {
 		return nil
 	}
 	if stmtCount(fd.Body) > 30 {
 		return nil
 	}
-	h := &helperInfo{fn: fn, decl: fd, pkg: p, locals: map[string]bool{}, writes: map[types.Object]bool{}, uses: map[types.Object]int{}}
+	h := &helperInfo{fn: fn, sig: sig, decl: fd, pkg: p, locals: map[string]bool{}, writes: map[types.Object]bool{}, uses: map[types.Object]int{}}
 	if fd.Recv != nil {
 		if len(fd.Recv.List) != 1 || len(fd.Recv.List[0].Names) != 1 {
 			return nil
@@ -183,7 +241,7 @@ func (in *inliner) classify(p *packages.Package, fd *ast.FuncDecl) *helperInfo {
 			if id, ok := ast.Unparen(x.Fun).(*ast.Ident); ok && id.Name == "recover" {
 				bad = true
 			}
-			if c := staticCallee(p, x); c == fn {
+			if c := staticCallee(p, x); c != nil && c == fn {
 				bad = true // recursive
 			}
 		case *ast.Ident:
@@ -600,21 +658,58 @@ func (in *inliner) helperOf(p *packages.Package, e ast.Expr) (*helperInfo, *ast.
 	if !ok {
 		return nil, nil
 	}
-	fn := staticCallee(p, call)
-	if fn == nil {
-		return nil, nil
-	}
-	h := in.helpers[fn]
-	if h == nil || h.pkg != p {
+	h := in.lookup(p, call)
+	if h == nil {
 		return nil, nil
 	}
 	return h, call
+}
+
+func (in *inliner) lookup(p *packages.Package, call *ast.CallExpr) *helperInfo {
+	if id, ok := ast.Unparen(call.Fun).(*ast.Ident); ok {
+		if v, isVar := p.TypesInfo.Uses[id].(*types.Var); isVar {
+			if h := in.closures[v]; h != nil && h.pkg == p {
+				return h
+			}
+			return nil
+		}
+	}
+	fn := staticCallee(p, call)
+	if fn == nil {
+		return nil
+	}
+	h := in.helpers[fn]
+	if h == nil || h.pkg != p {
+		return nil
+	}
+	return h
 }
 
 func (in *inliner) rewriteStmt(p *packages.Package, file *ast.File, st ast.Stmt) []ast.Stmt {
 	switch x := st.(type) {
 	case *ast.ExprStmt:
 		h, call := in.helperOf(p, x.X)
+		if h != nil && h.kind == hkValue {
+			// the results are dropped: the statements, without the final return
+			pre, body, ok := in.instantiate(p, h, call)
+			if !ok || len(body) == 0 {
+				return nil
+			}
+			ret, isRet := body[len(body)-1].(*ast.ReturnStmt)
+			if !isRet {
+				return nil
+			}
+			for _, r := range ret.Results {
+				if !pureExpr(p, r) {
+					return nil
+				}
+			}
+			out := append(pre, body[:len(body)-1]...)
+			if len(out) == 0 {
+				return []ast.Stmt{&ast.EmptyStmt{}}
+			}
+			return out
+		}
 		if h == nil || h.kind != hkStmt {
 			return nil
 		}
@@ -660,13 +755,13 @@ func (in *inliner) rewriteStmt(p *packages.Package, file *ast.File, st ast.Stmt)
 			return nil
 		}
 		h, call := in.helperOf(p, x.Rhs[0])
-		if h != nil && h.kind == hkMulti && len(x.Lhs) == 1 && h.fn.Type().(*types.Signature).Results().Len() == 1 {
+		if h != nil && h.kind == hkMulti && len(x.Lhs) == 1 && h.sig.Results().Len() == 1 {
 			return in.guardChainAssign(p, file, x, h, call)
 		}
 		if h == nil || h.kind != hkValue {
 			return nil
 		}
-		nres := h.fn.Type().(*types.Signature).Results().Len()
+		nres := h.sig.Results().Len()
 		if len(x.Lhs) != nres {
 			return nil
 		}
@@ -834,7 +929,7 @@ func inlineOnce(dir string) (int, error) {
 	if err != nil {
 		return 0, err
 	}
-	in := &inliner{helpers: map[*types.Func]*helperInfo{}}
+	in := &inliner{helpers: map[*types.Func]*helperInfo{}, closures: map[types.Object]*helperInfo{}}
 	// functions that are ports of standard-library functions keep their
 	// structure: the port rules compare them with their originals, helper by
 	// helper. A helper is taken for a port when the reference packages
@@ -895,6 +990,26 @@ func inlineOnce(dir string) (int, error) {
 			}
 		}
 	}
+	closureLits := map[*ast.FuncLit]bool{}
+	for _, p := range pkgs {
+		for _, f := range p.Syntax {
+			for _, d := range f.Decls {
+				fd, ok := d.(*ast.FuncDecl)
+				if !ok || fd.Body == nil {
+					continue
+				}
+				ast.Inspect(fd.Body, func(n ast.Node) bool {
+					if as, ok := n.(*ast.AssignStmt); ok {
+						if h := in.classifyClosure(p, fd, as); h != nil {
+							in.closures[h.clVar] = h
+							closureLits[as.Rhs[0].(*ast.FuncLit)] = true
+						}
+					}
+					return true
+				})
+			}
+		}
+	}
 	count := 0
 	for _, p := range pkgs {
 		for fi, f := range p.Syntax {
@@ -902,6 +1017,9 @@ func inlineOnce(dir string) (int, error) {
 			// bodies of helpers are left as they are in this round (they are
 			// the templates that get copied); the next round sees the copies
 			isHelperDecl := func(n ast.Node) bool {
+				if fl, ok := n.(*ast.FuncLit); ok {
+					return closureLits[fl]
+				}
 				fd, ok := n.(*ast.FuncDecl)
 				if !ok {
 					return false
@@ -928,12 +1046,8 @@ func inlineOnce(dir string) (int, error) {
 				if !ok {
 					return true
 				}
-				fn := staticCallee(p, call)
-				if fn == nil {
-					return true
-				}
-				h := in.helpers[fn]
-				if h == nil || h.pkg != p || h.kind != hkExpr {
+				h := in.lookup(p, call)
+				if h == nil || h.kind != hkExpr {
 					return true
 				}
 				// every argument must be substitutable
@@ -972,6 +1086,51 @@ func inlineOnce(dir string) (int, error) {
 				continue
 			}
 			count++
+			// a closure whose calls are all inlined is no longer declared
+			for _, h := range in.closures {
+				if h.pkg != p || h.clDef.Pos() < f.Pos() || h.clDef.End() > f.End() {
+					continue
+				}
+				name := h.clVar.Name()
+				for _, d := range f.Decls {
+					fd, ok := d.(*ast.FuncDecl)
+					if !ok || fd.Body == nil || h.clDef.Pos() < fd.Pos() || h.clDef.End() > fd.End() {
+						continue
+					}
+					uses := 0
+					ast.Inspect(fd.Body, func(n ast.Node) bool {
+						if n == ast.Node(h.clDef) {
+							return false
+						}
+						if id, ok := n.(*ast.Ident); ok && id.Name == name {
+							uses++
+						}
+						return true
+					})
+					if uses > 0 {
+						continue
+					}
+					drop := func(list []ast.Stmt) []ast.Stmt {
+						for i, st := range list {
+							if st == ast.Stmt(h.clDef) {
+								return append(append([]ast.Stmt{}, list[:i]...), list[i+1:]...)
+							}
+						}
+						return list
+					}
+					ast.Inspect(fd.Body, func(n ast.Node) bool {
+						switch x := n.(type) {
+						case *ast.BlockStmt:
+							x.List = drop(x.List)
+						case *ast.CaseClause:
+							x.Body = drop(x.Body)
+						case *ast.CommClause:
+							x.Body = drop(x.Body)
+						}
+						return true
+					})
+				}
+			}
 			// keep only the comments before the package clause (build constraints)
 			var keep []*ast.CommentGroup
 			for _, cg := range f.Comments {
